@@ -14,7 +14,9 @@ EXPLANATION = (
     "expression, file-length formula, default table size, capacity->buckets constants; record files: free-list head "
     "offsets, size classes, round-up stride, record field order and codecs, the x8 scaling constants of the offset/size "
     "codecs, the free-slot layout; the five type signatures; the placement hash (chunking, byte order, combine, mixer "
-    "shift list, bucket = hash % count).  Plus: the placement hash is seedless (no run- or process-dependent source).")
+    "shift list, bucket = hash % count).  Plus: the placement hash is seedless (no run- or process-dependent source); "
+    "every shift / or / xor / and of the hasher's write and of the mixer operates on u64 (hash-width: a narrower "
+    "accumulator has the same statements and constants but drops the high bytes of a short tail).")
 NOT_DECIDED = ("that golden images of the pinned release open with identical contents and that all other guarantees keep "
                "holding on them (needs the images and a run); a rewrite that emits the same bytes through a structurally "
                "different writer is reported as 'extraction shape not recognised' (tool limitation, fails closed).")
